@@ -104,45 +104,51 @@ def run_check(cid, tier, seed, jobs, budget_override=None, keep=False):
                     worker_logs += f"--- worker {s} ---\n{txt}\n"
     # ---- confirm candidate violations alone, classify -------------------------------------------
     known = F.load_known()
-    reported = []  # (kind, finding/None, viol, path)
-    seen_mech = {}
     os.makedirs(os.path.join(VERIF_DIR, "replays", cid), exist_ok=True)
-    for rec in agg.violations:
-        v = rec["viol"]
-        mk = F.mech_key(v)
-        if mk in seen_mech:
-            seen_mech[mk]["count"] += 1
-            continue
-        seen_mech[mk] = {"count": 1, "rec": rec}
-    confirmed = []
-    unconfirmed = 0
-    for mk, ent in list(seen_mech.items())[: MAX_CONFIRM * 3]:
-        rec = ent["rec"]
-        path = os.path.join(VERIF_DIR, "replays", cid, f"{cid}-{tier}-s{seed}-{F.short(mk)}.json")
+    known_hit = {}
+    groups = {}
+
+    def save_replay(rec, tag):
+        path = os.path.join(VERIF_DIR, "replays", cid, f"{cid}-{tier}-s{seed}-{tag}.json")
         with open(path, "w") as fh:
             json.dump({"property": cid, "tier": tier, "seed": seed, "case": rec["case"], "viol": rec["viol"]}, fh, indent=1, sort_keys=True)
-        if len(confirmed) >= MAX_CONFIRM:
-            confirmed.append((rec["viol"], path, ent["count"], "not re-run (cap)"))
-            continue
-        rr = run_replay_subprocess(cid, path, env, scratch)
-        if rr is None:
-            # did not reproduce alone: history dependent or flaky; still report, labelled
-            unconfirmed += 1
-            confirmed.append((rec["viol"], path, ent["count"], "did not reproduce alone (history-dependent?)"))
-        else:
-            confirmed.append((rr, path, ent["count"], "reproduced alone"))
-    n_viol = 0
-    lines = []
-    known_hit = {}
-    for v, path, count, how in confirmed:
+        return path
+
+    # every candidate is matched against the listed findings individually (so a different violation of the same
+    # property is never hidden behind a listed one); the unlisted ones are grouped by coarse mechanism and a
+    # representative of each group is re-run alone in a fresh process before it is reported.
+    for rec in agg.violations:
+        v = rec["viol"]
         kf = F.match_known(known, cid, v)
         if kf is not None:
-            known_hit.setdefault(kf["key"], {"kf": kf, "count": 0, "path": path})
-            known_hit[kf["key"]]["count"] += count
-        else:
-            n_viol += 1
-            lines.append(f"VIOLATION property={cid} replay={path}")
-            lines.append(f"  detail: {json.dumps(F.brief(v))[:600]} [{how}; {count} case(s)]")
+            ent = known_hit.setdefault(kf["key"], {"kf": kf, "count": 0, "path": None})
+            ent["count"] += 1
+            if ent["path"] is None:
+                ent["path"] = save_replay(rec, "known-" + F.short(kf["key"]))
+            continue
+        mk = F.mech_key(v)
+        g = groups.setdefault(mk, {"count": 0, "rec": rec})
+        g["count"] += 1
+    n_viol = 0
+    lines = []
+    for n, (mk, ent) in enumerate(groups.items()):
+        rec = ent["rec"]
+        path = save_replay(rec, F.short(mk + json.dumps(rec["viol"].get("ops", ""))))
+        v, how = rec["viol"], "not re-run (cap)"
+        if n < MAX_CONFIRM:
+            rr = run_replay_subprocess(cid, path, env, scratch)
+            if rr is None:
+                how = "did not reproduce alone (history-dependent?)"
+            else:
+                v, how = rr, "reproduced alone"
+                kf = F.match_known(known, cid, v)
+                if kf is not None:
+                    e2 = known_hit.setdefault(kf["key"], {"kf": kf, "count": 0, "path": path})
+                    e2["count"] += ent["count"]
+                    continue
+        n_viol += 1
+        lines.append(f"VIOLATION property={cid} replay={path}")
+        lines.append(f"  detail: {json.dumps(F.brief(v))[:600]} [{how}; {ent['count']} case(s)]")
     for key, ent in known_hit.items():
         lines.append(f"KNOWN-FINDING: property={cid} {ent['kf']['mechanism']} [{ent['count']} case(s), e.g. {ent['path']}]")
     # canaries for known findings: every listed finding must be seen by the check on the unchanged tree
